@@ -1,8 +1,30 @@
+import Qentem.Model.Ledger
 import Qentem.Driver.Proto
 namespace Qentem.Driver.Ledger
-open Qentem.Driver
+open Qentem.Driver Qentem.Ledger
 
-/-- Stub: replaced by the area's model driver. `op` is the first token of the line. -/
-def handle (_op : String) (_args : List String) : String := "bad-op"
+def parseEv (t : String) : Option Ev :=
+  if t.startsWith "a" then
+    match (t.drop 1).toString.splitOn ":" with
+    | [i, s] => do let i ← i.toNat?; let s ← s.toNat?; pure (.alloc i s)
+    | _ => none
+  else if t.startsWith "f" then (t.drop 1).toString.toNat?.map .free
+  else if t.startsWith "t" then (t.drop 1).toString.toNat?.map .touch
+  else none
+
+/-- `ledcheck <trace>`: the Lean `run` on a real allocation trace.
+    → `balanced <events>` | `violation <index>` | `leak <blocks>` -/
+def handle (op : String) (args : List String) : String :=
+  match op, args with
+  | "ledcheck", [tr] =>
+    if tr == "-" then "balanced 0" else
+    match (tr.splitOn ",").mapM parseEv with
+    | none => "bad-op"
+    | some evs =>
+      match run evs [] with
+      | some [] => s!"balanced {evs.length}"
+      | some h => s!"leak {h.length}"
+      | none => s!"violation {(firstViolation evs [] 0).getD 0}"
+  | _, _ => "bad-op"
 
 end Qentem.Driver.Ledger
